@@ -1092,7 +1092,9 @@ def parse(
             conn.commit()
         try:
             tree = pickle.loads(pickled_data)
-        except pickle.UnpicklingError:
+        except Exception:
+            # Damaged or outdated pickles fail in many ways (EOFError, ValueError,
+            # AttributeError, ImportError, ...), not only with UnpicklingError
             logger.warning(f"Model with hash '{txt_hash}' ({pymoca_version}) failed to unpickle")
     else:
         logger.debug(f"Model with hash '{txt_hash}' ({pymoca_version}) not in cache")
